@@ -134,12 +134,15 @@ def run(ctx):
     # _parse stores in indoor_temperature (kept as a function of its own, not seen through)
     TEMPQ, toff = f"{SR}._parse_temperature", 1
     if TEMPQ not in prog.funcs and prog.lookup_method(prog.cls(SR), "_parse_temperature") is None:
-        for n_ in ast.walk(fn.node):
-            if isinstance(n_, ast.Assign) and isinstance(n_.value, ast.Call) and any(isinstance(t_, ast.Attribute) and t_.attr == "indoor_temperature" for t_ in n_.targets):
-                r_ = prog.resolve_expr(fn.module, n_.value.func, fn.cls)
-                if r_ is not None and getattr(r_, "qual", None) in prog.funcs:
-                    TEMPQ, toff = r_.qual, (0 if r_.kind in ("function", "staticmethod") else 1)
-                    prog.extra_known = set(getattr(prog, "extra_known", ())) | {TEMPQ}
+        from ..helpers import with_helpers
+        for f_ in with_helpers(prog, fn):          # (_parse itself or a step it was split into)
+            for n_ in ast.walk(f_.node):
+                if isinstance(n_, ast.Assign) and isinstance(n_.value, ast.Call) and any(isinstance(t_, ast.Attribute) and t_.attr == "indoor_temperature" for t_ in n_.targets):
+                    from ..helpers import resolve_call
+                    r_ = prog.resolve_expr(f_.module, n_.value.func, f_.cls) or resolve_call(prog, f_, n_.value)
+                    if r_ is not None and getattr(r_, "qual", None) in prog.funcs:
+                        TEMPQ, toff = r_.qual, (0 if r_.kind in ("function", "staticmethod") else 1)
+                        prog.extra_known = set(getattr(prog, "extra_known", ())) | {TEMPQ}
     s = summarize(prog, fn)
     self_p, pay_p = fn.params[0], fn.params[1]
     defaults = init_attrs(prog, prog.cls(SR))
@@ -177,25 +180,36 @@ def run(ctx):
     temp_calls = {}
     dec_scales = set()
     for pc, _t, node, rst in s.returns:
-        terms = {}
+        all_terms = {}
         for a in attr_names:
-            terms["A:" + a] = replace(rst.env.get(f"{self_p}.{a}", defaults.get(a, ("const", None))), untouched)
+            all_terms["A:" + a] = replace(rst.env.get(f"{self_p}.{a}", defaults.get(a, ("const", None))), untouched)
         for a, e in EXPECTED.items():
-            terms["E:" + a] = e
-        terms["PC"] = pc_term(pc)
-        try:
-            regs = eval_regions(terms, leaf, Region(DOMAINS), max_regions=400)
-        except RuntimeError as e:
-            raise AnalysisError(f"{fn.qual}: {e}")
-        for r, vals, be in regs:
-            pcv = be.truth(vals["PC"]) if not isinstance(vals["PC"], bool) else vals["PC"]
-            if pcv is False:
-                continue
-            if pcv is not True:
-                raise AnalysisError(f"{fn.qual}: path condition not decided in region: {vals['PC']}")
-            n_regions += 1
-            rdesc = f"len∈{r.domains['len']}, t_alt∈{r.domains['t_alt']}, display∈{r.domains['display']}" + (f", {r.describe()}" if r.preds else "")
-            for a in EXPECTED:
+            all_terms["E:" + a] = e
+        pct = pc_term(pc)
+
+        def regions_of(names_):
+            """guard regions of this return path for the named terms only (each attribute is decided in the regions *it* needs: attributes
+            are independent of each other, so their case splits add up instead of multiplying)"""
+            try:
+                regs_ = eval_regions({**{k: all_terms[k] for k in names_}, "PC": pct}, leaf, Region(DOMAINS), max_regions=400)
+            except RuntimeError as e:
+                raise AnalysisError(f"{fn.qual}: {e}")
+            out_ = []
+            for r, vals, be in regs_:
+                pcv = be.truth(vals["PC"]) if not isinstance(vals["PC"], bool) else vals["PC"]
+                if pcv is False:
+                    continue
+                if pcv is not True:
+                    raise AnalysisError(f"{fn.qual}: path condition not decided in region: {vals['PC']}")
+                out_.append((r, vals, be))
+            return out_
+
+        def rdesc_of(r):
+            return f"len∈{r.domains['len']}, t_alt∈{r.domains['t_alt']}, display∈{r.domains['display']}" + (f", {r.describe()}" if r.preds else "")
+        for a in EXPECTED:
+            for r, vals, be in regions_of(["A:" + a, "E:" + a]):
+                n_regions += 1
+                rdesc = rdesc_of(r)
                 got, want = vals["A:" + a], vals["E:" + a]
                 g, w = norm_val(got, be), norm_val(want, be)
                 seen_attr.add(a)
@@ -204,9 +218,8 @@ def run(ctx):
                        f"[{rdesc}] {a} = {got!r} equals the reported field {want!r}", func=fn.qual, file=file,
                        construct=f"self.{a} = {show(rst.env.get(f'{self_p}.{a}', ('const', None)))[:70]}",
                        fail=f"[{rdesc}] self.{a} decodes to {got!r}, the device reported {want!r}")
-                if be.lossy:
-                    pass
-            for a, (raw, tenths) in TEMPS.items():
+        for a, (raw, tenths) in TEMPS.items():
+            for r, vals, be in regions_of(["A:" + a]):
                 v = vals["A:" + a]
                 seen_attr.add(a)
                 if isinstance(v, tuple) and v and v[0] == "tempcall":
@@ -229,9 +242,6 @@ def run(ctx):
                 else:
                     ctx.ob("C11.c", fn.qual, False, "", func=fn.qual, file=file, construct=f"self.{a}",
                            fail=f"{a} is not computed by _parse_temperature from its raw byte and tenths nibble: {v!r}")
-            if n_regions <= 3:
-                ctx.sample({"region": rdesc, "target_temperature": repr(vals["A:target_temperature"]), "turbo": repr(vals["A:turbo"]),
-                            "display_on": repr(vals["A:display_on"])})
     ctx.count("regions", n_regions)
     ctx.count("attributes", len(seen_attr))
     ctx.count("temperature_call_sites", len(temp_calls))
